@@ -4,6 +4,7 @@ C09 — property theorems, round 2: `search.Tree` used directly with arbitrary, 
 errDupSlash, trailing slashes, empty segments).
 -/
 import GoZero.C09.ProofsRaw
+import GoZero.C09.Driver
 namespace GoZero.C09
 
 open Spec
@@ -84,6 +85,44 @@ theorem tree_add_keeps_wf (root : Node) (hwf : WF root) (route : String) (item :
       · have := ((tree_add_rejections root route (some x)).2.2 hr x rfl).mpr hns
         rw [this] at h; cases h
       · exact ((tree_add_accepts root hwf route x hr hns).1 root' h).1
+
+/-- **the driver's monitor for raw `Tree.Add` is sound**: on a well-formed tree whose stored keys are `keys`,
+the model's answer is the verdict of the table-level rule `Spec.rawAddVerdict`. -/
+theorem raw_add_monitor_sound (root : Node) (hwf : WF root) (keys : List (List String))
+    (hk : ∀ ks, (lookupW ks root).isSome = true ↔ ks ∈ keys) (route : String) (item : Option H) :
+    fmtAdd (treeAdd root route item) = rawAddVerdict keys route item := by
+  obtain ⟨h1, h2, h3⟩ := tree_add_rejections root route item
+  unfold rawAddVerdict
+  cases hr : rooted route with
+  | false => rw [h1 hr]; rfl
+  | true =>
+    cases item with
+    | none => rw [h2 hr rfl]; rfl
+    | some h =>
+      simp only [Bool.not_true, Bool.false_eq_true, if_false, Option.isNone_some]
+      by_cases hns : "" ∈ (toksOf route).dropLast
+      · rw [(h3 hr h rfl).mpr hns]
+        simp [List.contains_iff_mem, hns, fmtAdd]
+      · have hc : ((toksOf route).dropLast.contains "") = false := by
+          simpa [List.contains_iff_mem] using hns
+        rw [hc]
+        simp only [Bool.false_eq_true, if_false]
+        obtain ⟨hok, herr⟩ := tree_add_accepts root hwf route h hr hns
+        cases hres : treeAdd root route (some h) with
+        | error e =>
+          obtain ⟨rfl, hs⟩ := herr e hres
+          have : keys.contains (rawKey route) = true := by
+            rw [List.contains_iff_mem]; exact (hk _).mp hs
+          rw [this]; rfl
+        | ok root' =>
+          obtain ⟨_, hnone, _⟩ := hok root' hres
+          have : keys.contains (rawKey route) = false := by
+            rw [Bool.eq_false_iff]
+            intro hm
+            rw [List.contains_iff_mem] at hm
+            have := (hk _).mpr hm
+            rw [hnone] at this; cases this
+          rw [this]; rfl
 
 /-! non-vacuity on a tree holding `/a`, `/a/:x/c`, `/:y` (built with raw strings, one with a trailing slash) -/
 
